@@ -42,6 +42,8 @@ struct Single {
 enum Mode {
     AllPivots,
     Bounded(Policy, u32),
+    /// deviations only among the first choice points
+    Shallow(Policy, u32, usize),
 }
 
 impl Mode {
@@ -49,6 +51,7 @@ impl Mode {
         match self {
             Mode::AllPivots => PivotMode::All,
             Mode::Bounded(p, b) => PivotMode::Bounded { policy: p, bound: b },
+            Mode::Shallow(p, b, d) => PivotMode::BoundedShallow { policy: p, bound: b, depth: d },
         }
     }
 }
@@ -299,7 +302,7 @@ fn main() {
     );
     // 4. long lanes under adversarial pivot policies: recursion depth ~ n (worst case of quickselect),
     //    which is where depth / round budgets, fallbacks and window bookkeeping live
-    let nlong = rep.cfg.pick(96, 250);
+    let nlong = rep.cfg.pick(160, 256);
     let cases = (13..=nlong).flat_map(move |n| {
         (0..6usize).flat_map(move |fam| {
             let pat = long_input(n, fam);
@@ -307,7 +310,7 @@ fn main() {
                 let pat = pat.clone();
                 move |i| {
                     // every index for n <= 40; a spread of indexes above (first, last, around the quartiles, every 7th)
-                    let keep = n <= 40 || i < 2 || i + 2 >= n || i % 7 == 3 || i == n / 2 || i == n / 4 || i == 3 * n / 4;
+                    let keep = n <= 40 || i < 2 || i + 5 >= n || i % 7 == 3 || i == n / 2 || i == n / 4 || i == 3 * n / 4 || (i % 32 <= 1) || (i % 32 == 31);
                     let pat = pat.clone();
                     Policy::ADVERSARIAL.iter().filter(move |_| keep).map(move |&p| Single { pat: pat.clone(), i, step: if (i + n) % 5 == 0 { -1 } else { 1 }, mode: Mode::Bounded(p, if n <= 24 { 1 } else { 0 }) }).collect::<Vec<_>>()
                 }
@@ -316,14 +319,20 @@ fn main() {
     });
     rep.run_sub(
         "single-long-lanes-adversarial-policies",
-        &format!("every length 13..={} x 6 input families (increasing, decreasing, organ pipe, two-valued, all equal, sawtooth) x indexes (all for n<=40; ends, quartiles and every 7th above) x policies first / last / parity-alternating ends / middle, 0 deviations (<= 1 for n <= 24): executions with recursion depth up to n-1", nlong),
+        &format!("every length 13..={} x 6 input families (increasing, decreasing, organ pipe, two-valued, all equal, sawtooth) x indexes (all for n<=40; both ends incl. the last five ranks, quartiles, every 7th and the neighbours of every multiple of 32 above) x policies first / last / parity-alternating ends / middle / second / second-to-last, 0 deviations (<= 1 for n <= 24): executions with recursion depth up to n-1", nlong),
         cases,
         single_body,
     );
     let cases = (13..=nlong).flat_map(move |n| {
         (0..6usize).flat_map(move |fam| {
             let pat = long_input(n, fam);
-            let sets: Vec<Vec<usize>> = vec![vec![0], vec![n - 1], vec![n / 2], vec![n - 1, 0], vec![n / 3, n / 2, n / 2], vec![1, n - 2, n / 4, 3 * n / 4], (0..n).rev().collect(), (0..n).step_by(5).collect()];
+            let mut sets: Vec<Vec<usize>> = vec![vec![0], vec![n - 1], vec![n / 2], vec![n - 1, 0], vec![n / 3, n / 2, n / 2], vec![1, n - 2, n / 4, 3 * n / 4], (0..n).rev().collect(), (0..n).step_by(5).collect(), (0..n).step_by(2).collect()];
+            // index sets around typical block / bitmask thresholds
+            let th: Vec<usize> = [31usize, 32, 33, 63, 64, 65, 127, 128, 129, 255].iter().cloned().filter(|&t| t < n).collect();
+            if !th.is_empty() {
+                sets.push(th.clone());
+                sets.push(vec![*th.last().unwrap()]);
+            }
             sets.into_iter().enumerate().flat_map({
                 let pat = pat.clone();
                 move |(si, set)| {
@@ -335,9 +344,31 @@ fn main() {
     });
     rep.run_sub(
         "bulk-long-lanes-adversarial-policies",
-        &format!("every length 13..={} x 6 input families x 8 index sets (single ends, middle, sparse, with repeats, every 5th, all positions in decreasing order) x 4 adversarial policies, 0 deviations; every 4th case on a reversed view", nlong),
+        &format!("every length 13..={} x 6 input families x 9-11 index sets (single ends, middle, sparse, with repeats, every 5th, every 2nd, all positions in decreasing order, the thresholds 31..33, 63..65, 127..129, 255 below n) x 6 adversarial policies, 0 deviations; every 4th case on a reversed view", nlong),
         cases,
         bulk_body,
+    );
+    // 5. lanes around size thresholds with ONE deviation among the first choice points (pivot samplers,
+    //    median-of-k schemes: several draws per step, one of which differs)
+    let tl: Vec<usize> = if rep.cfg.thorough() { vec![31, 32, 33, 63, 64, 65, 127, 128, 129, 130, 200, 255, 256] } else { vec![64, 65, 127, 128, 129, 130] };
+    let tl2 = tl.clone();
+    let cases = tl2.into_iter().flat_map(|n| {
+        (0..4usize).flat_map(move |fam| {
+            let pat = long_input(n, fam);
+            [0usize, n / 2, n - 1].iter().flat_map({
+                let pat = pat.clone();
+                move |&i| {
+                    let pat = pat.clone();
+                    [Policy::First, Policy::Last, Policy::Middle].iter().map(move |&p| Single { pat: pat.clone(), i, step: 1, mode: Mode::Shallow(p, 1, 6) }).collect::<Vec<_>>()
+                }
+            }).collect::<Vec<_>>()
+        })
+    });
+    rep.run_sub(
+        "threshold-lanes-shallow-deviation",
+        &format!("lane lengths {:?} x 4 input families x indexes first / middle / last x policies first / last / middle x every pivot sequence that deviates from the policy at ONE of the first 6 choice points (all alternative pivots there)", tl),
+        cases,
+        single_body,
     );
     rep.finish();
 }
